@@ -646,7 +646,7 @@ def gen_cell(r, rid, allow=("ok", "stmt", "print", "err", "perr", "syntax"), bur
         d["append"] = True
         lines.append("acc = acc + [%d]" % rid)
     if kind in ("print", "perr") or r.random() < 0.25:
-        style = r.randrange(6)
+        style = r.randrange(7)
         t = ["%s%d.%d" % (r.choice(["out", "ünï", "a b", "tab\t", "'q'"]), rid, k) for k in range(r.randint(1, 3))]
         if style == 0:
             lines += ["print(%r)" % x for x in t]
@@ -658,9 +658,13 @@ def gen_cell(r, rid, allow=("ok", "stmt", "print", "err", "perr", "syntax"), bur
             lines += ["for _x in %r:\n    print(_x)" % (t,)]
         elif style == 4:                      # yields to the event loop between prints
             lines += [("print(%r)\ntask.sleep(0.5)" % x) for x in t]
-        else:
+        elif style == 5:
             t = ["m%d\nsecond line" % rid]
             lines += ["print(%r)" % t[0]]
+        else:                                 # one long record (a long ZMTP frame on iopub when it exceeds 255 / 65535 octets)
+            n = r.choice([250, 300, 5000, 66000])
+            t = ["L%d." % rid + "y" * n]
+            lines += ["print('L%d.' + 'y' * %d)" % (rid, n)]
         d["prints"] = list(t)
     if kind in ("err", "perr"):
         src, en = r.choice(ERRORS)
@@ -1003,8 +1007,8 @@ def est_octets(scn):
     n = 0
     for b in scn["bursts"]:
         for q in b["reqs"]:
-            n += 6 + len(q["cell"]["prints"])
-    return 900 * n
+            n += 900 * (6 + len(q["cell"]["prints"])) + sum(len(x) for x in q["cell"]["prints"])
+    return n
 
 
 def add_pressure(r, scn, force_iopub=True):
@@ -1280,9 +1284,12 @@ def mc_tasks(ctx):
               kernel_cfg("code", 2, [t for t in TAGS_ALL if t != "perr"], False, ["TRUE"], ["StdoutAttributed"]), "holds", 2))
     T.append(("Kernel fixed mechanism (proposed fix)", "Kernel", kernel_cfg("fixed", n, tags_n, False, both, KERNEL_INV + ["StdoutBeforeIdle"]), "holds", 4))
     # stdout bursts: a cell emitting several records at once; a queue that drops what does not fit must violate StdoutInOrder
-    T.append(("Kernel spec, <=2 requests, stdout bursts of 3", "Kernel",
-              kernel_cfg("spec", 2, ["burst", "kernel_info_request"], False, ["TRUE"], KERNEL_INV).replace(
-                  "CHECK_DEADLOCK", "CONSTRAINT TrackWB\nPOSTCONDITION WitnessesSeenB\nCHECK_DEADLOCK"), "holds+witnesses", 1))
+    wb = ("CHECK_DEADLOCK", "CONSTRAINT TrackWB\nPOSTCONDITION WitnessesSeenB\nCHECK_DEADLOCK")
+    T.append(("Kernel spec, <=2 requests, stdout bursts of 3, clients wait for quiescence", "Kernel",
+              kernel_cfg("spec", 2, ["burst", "kernel_info_request"], False, ["TRUE"], KERNEL_INV, pipelining=False).replace(*wb), "holds+witnesses", 1))
+    if not q:
+        T.append(("Kernel spec, <=2 requests, stdout bursts of 4, pipelined", "Kernel",
+                  kernel_cfg("spec", 2, ["burst", "kernel_info_request"], False, ["TRUE"], KERNEL_INV, burst=4), "holds", 6))
     T.append(("Kernel fixed mechanism, housekeeping queue of 2 places filled with put_nowait (drops: must violate)", "Kernel",
               kernel_cfg("fixed", 2, ["burst", "print", "kernel_info_request"], False, ["TRUE"], ["StdoutInOrder"], hqbound=2), "violates:StdoutInOrder", 1))
     T.append(("Kernel fixed mechanism, unbounded housekeeping queue, same universe", "Kernel",
